@@ -34,9 +34,18 @@ structure View where
   unseen groups: its terms still carry the training labels and it has no data-frame view) -/
   checkLabels : Bool
   expectedRows : Nat            -- retained observations
+  /-- width of every term's own block on the data of this object, in term order (observed from the
+  terms themselves, not from the slices); `none` = not observed -/
+  termWidths : Option (List Nat) := none
+
+/-- every slice delimits its term's block: slice widths = the terms' own widths (`C17_slice_widths`) -/
+def widthsOk (ss : List Slice) : Option (List Nat) → Bool
+  | none => true
+  | some ws => ss.map (fun s => s.stop - s.start) == ws
 
 def holds (v : View) : Bool :=
   slicesOk v.slices v.termNames v.ncols
+  && widthsOk v.slices v.termWidths
   && v.rowLens.length == v.nrows && v.rowLens.all (· == v.ncols)
   && v.nrows == v.expectedRows
   && (!v.checkLabels ||
